@@ -671,7 +671,13 @@ func (w *WalletManager) signWitnessTx(password []byte, tx *wire.MsgTx, hashType 
 		}
 
 		scriptFlags := txscript.StandardVerifyFlags
-		if forks.EnforceMASSIP0002WarmUp(cacheMeta[txIn.PreviousOutPoint.Hash].Height) {
+		// a pending (unconfirmed) parent has no block yet; it can only
+		// confirm above the current tip
+		prevHeight := w.ChainIndexerSyncedHeight() + 1
+		if meta := cacheMeta[txIn.PreviousOutPoint.Hash]; meta != nil {
+			prevHeight = meta.Height
+		}
+		if forks.EnforceMASSIP0002WarmUp(prevHeight) {
 			scriptFlags |= txscript.ScriptMASSip2
 		}
 		// Either it was already signed or we just signed it.
